@@ -1,6 +1,8 @@
 (* C01 — Selected data are the stored samples at the selected coordinates (all formats).  Only statements here.
    Model / spec / wire: Model/DataSet.v (on top of Model/Select.v, Base/NdArray.v, Model/Flags.v);
-   proofs: Proofs/DataSetBaseP.v, DataSetP.v, DataSetTopP.v, DataSetExP.v, DataSetSensP.v.
+   proofs: Proofs/DataSetBaseP.v, DataSetP.v, DataSetTopP.v, DataSetExP.v, DataSetSensP.v;
+   data sets opened with a preselection: Model/DataSetPre.v, Proofs/DataSetPreP.v (time / frequency axes: C17's
+   Model/TimeFreq.v, Proofs/TimeFreqP.v, imported unchanged).
 
    Reading guide.  [run c (start c) h = Some d]: the history h of select() calls, indexer acquisitions
    (x = d.vis | d.flags | d.weights | d.raw_flags | d.timestamps), reads and observations was carried out from the
@@ -11,8 +13,8 @@
 From Coq Require Import ZArith QArith List Bool String.
 From KV Require Import Base.Sx Base.Str Base.SelSlice Base.PySlice Base.AxisIndex Base.NdArray Gen.Generated
   Model.Flags Model.DataSet Proofs.DataSetBaseP Proofs.DataSetP Proofs.DataSetTopP Proofs.DataSetExP
-  Proofs.DataSetSensP.
-From KV Require Model.Select Proofs.SelectP.
+  Proofs.DataSetSensP Model.DataSetPre Proofs.DataSetPreP.
+From KV Require Model.Select Proofs.SelectP Model.TimeFreq Proofs.TimeFreqP.
 Import ListNotations.
 Open Scope Z_scope.
 
@@ -377,3 +379,153 @@ Theorem C01_timestamps_refuted_before_fix :
   /\ labels_of (index_time_prefix ex_v2_f17 (Select.init ex_obs2) (arange [3] 0) []) = None.
 Proof. exact timestamps_refuted_before_fix. Qed.
 Print Assumptions C01_timestamps_refuted_before_fix.
+
+(* ------------------------------------------------------------------ v4 data sets opened WITH a preselection *)
+
+(* Reading guide.  [st] describes what is stored: (s_T, s_F, s_B) chunk-store arrays and the telstate attributes of the
+   two axes.  [open_pre st pd pc = Some o]: katdal.open(..., preselect = dict(dumps = pd, channels = pc)) (a key may
+   be absent; bounds may be None / negative: slice.indices) yields the subset of dumps o_a .. o_b - 1 and channels
+   o_c .. o_d - 1 with the spectral window o_w = SpectralWindow.subrange (as regenerated from the source).
+   [served S o] = S[o_a : o_b, o_c : o_d, :] is what the data source hands to the data set.  c is the opened data set
+   ([pre_ok]: it has the shape of the subset). *)
+
+(* which preselections open, and onto what: the normalised non-empty ranges inside the stored axes, all of them *)
+Theorem C01_preselect_opens : forall st pd pc, 0 <= s_T st -> 0 < s_F st ->
+  (forall o, open_pre st pd pc = Some o ->
+     (o_a o, o_b o) = norm (s_T st) pd /\ (o_c o, o_d o) = norm (s_F st) pc
+     /\ 0 <= o_a o /\ o_a o < o_b o /\ o_b o <= s_T st /\ 0 <= o_c o /\ o_c o < o_d o /\ o_d o <= s_F st
+     /\ TimeFreq.s_n (o_w o) = o_d o - o_c o)
+  /\ (fst (norm (s_T st) pd) < snd (norm (s_T st) pd) -> fst (norm (s_F st) pc) < snd (norm (s_F st) pc) ->
+      exists o, open_pre st pd pc = Some o).
+Proof. exact preselect_opens. Qed.
+Print Assumptions C01_preselect_opens.
+
+(* C01_elements for the opened subset, in STORED coordinates: for every stored content S, every history, every
+   continuation and every answered second-stage index, element (i, j, l) of x[ix2] is the stored sample at
+   (o_a + dumps[pt[i]], o_c + channels[pf[j]], corr_products[pb[l]]) -- dumps / channels / corr_products being those
+   the data set reported when x was acquired *)
+Theorem C01_preselect_elements : forall st o c S h1 k h2 d1 d2 ix2 out, c_fmt c = V4 -> pre_ok st o c -> k <> KTime ->
+  run c (start c) h1 = Some d1 ->
+  run c (start c) (h1 ++ OAcquire k :: h2) = Some d2 ->
+  index_op (served S o) d2 (List.length (ds_ixs d1)) ix2 = Ok out ->
+  let s := ds_sel d1 in
+  exists pt pf pb,
+    resolve_keep (zlen (dumps s)) (ix_at ix2 3 0) = Ok pt
+    /\ resolve_keep (zlen (channels s)) (ix_at ix2 3 1) = Ok pf
+    /\ resolve_keep (zlen (cp_idx s)) (ix_at ix2 3 2) = Ok pb
+    /\ nd_shape out = [zlen pt; zlen pf; zlen pb]
+    /\ forall i j l, 0 <= i < zlen pt -> 0 <= j < zlen pf -> 0 <= l < zlen pb ->
+         get (nd_body out) [i; j; l]
+         = get S [o_a o + znth (dumps s) (znth pt i); o_c o + znth (channels s) (znth pf j);
+                  znth (cp_idx s) (znth pb l)].
+Proof. exact pre_elements. Qed.
+Print Assumptions C01_preselect_elements.
+
+(* on labels (what crosses the wire): the executable spec answers, and every element of the model answer is the
+   C-order position IN THE STORED ARRAY that the spec lists *)
+Theorem C01_preselect_element_labels : forall st o c h1 k h2 d1 d2 ix2 out, c_fmt c = V4 -> pre_ok st o c ->
+  k <> KTime -> o_b o <= s_T st -> o_d o <= s_F st ->
+  run c (start c) h1 = Some d1 ->
+  run c (start c) (h1 ++ OAcquire k :: h2) = Some d2 ->
+  index_op (served (stored_labels_of st k) o) d2 (List.length (ds_ixs d1)) ix2 = Ok out ->
+  let s := ds_sel d1 in
+  exists pt pf pb,
+    spec_index_pre st o s k ix2
+    = Ok ([zlen pt; zlen pf; zlen pb],
+          flat_map (fun i => flat_map (fun j => map (fun l =>
+            pos3 (s_F st) (s_B st) (o_a o + znth (dumps s) i) (o_c o + znth (channels s) j) (znth (cp_idx s) l))
+            pb) pf) pt)
+    /\ nd_shape out = [zlen pt; zlen pf; zlen pb]
+    /\ forall i j l, 0 <= i < zlen pt -> 0 <= j < zlen pf -> 0 <= l < zlen pb ->
+         get (nd_body out) [i; j; l]
+         = Leaf (pos3 (s_F st) (s_B st) (o_a o + znth (dumps s) (znth pt i)) (o_c o + znth (channels s) (znth pf j))
+                      (znth (cp_idx s) (znth pb l))).
+Proof. exact pre_element_labels. Qed.
+Print Assumptions C01_preselect_element_labels.
+
+(* the timestamps array of the subset: element i is the stored timestamp of dump o_a + dumps[pt[i]] *)
+Theorem C01_preselect_elements_timestamps : forall st o c S h1 h2 d1 d2 ix2 out, c_fmt c = V4 -> pre_ok st o c ->
+  run c (start c) h1 = Some d1 ->
+  run c (start c) (h1 ++ OAcquire KTime :: h2) = Some d2 ->
+  index_op (served1 S o) d2 (List.length (ds_ixs d1)) ix2 = Ok out ->
+  let s := ds_sel d1 in
+  exists pt,
+    resolve_keep (zlen (dumps s)) (ix_at ix2 1 0) = Ok pt
+    /\ nd_shape out = [zlen pt]
+    /\ forall i, 0 <= i < zlen pt -> get (nd_body out) [i] = get S [o_a o + znth (dumps s) (znth pt i)].
+Proof. exact pre_time_elements. Qed.
+Print Assumptions C01_preselect_elements_timestamps.
+
+(* "freqs are the labels of those same channels": after every history on the opened subset, d.freqs has one entry per
+   channel and freqs[j] is the DOCUMENTED centre frequency center_freq + (k - n_chans // 2) * bandwidth / n_chans of the
+   STORED channel k = o_c + channels[j] -- the channel whose samples C01_preselect_elements delivers at position j.
+   (The window is SpectralWindow.subrange as regenerated from the source: a change of its centre-channel arithmetic
+   changes Generated.gen_spw_subrange and this theorem no longer checks.) *)
+Theorem C01_preselect_freqs : forall st pd pc o c h d, 0 <= s_T st -> 0 < s_F st -> open_pre st pd pc = Some o ->
+  c_fmt c = V4 -> pre_ok st o c -> run c (start c) h = Some d ->
+  let s := ds_sel d in
+  zlen (pre_freqs o s) = zlen (channels s)
+  /\ forall j, 0 <= j < zlen (channels s) ->
+       (nth (Z.to_nat j) (pre_freqs o s) 0
+        == TimeFreq.spec_chan_freq (s_centre st) (s_bw st) (s_F st) 1 (o_c o + znth (channels s) j))%Q.
+Proof. exact pre_freq_labels. Qed.
+Print Assumptions C01_preselect_freqs.
+
+(* "timestamps are the labels of those same dumps": timestamps[i] is the documented time (sync_time + first_timestamp
+   + k * int_time + time_offset, minus the CBF-dump fix of old captures: C17) of the STORED dump k = o_a + dumps[i] *)
+Theorem C01_preselect_timestamps : forall st o c h d, c_fmt c = V4 -> c_dup c = false -> c_ts c = pre_ts st o ->
+  pre_ok st o c -> run c (start c) h = Some d ->
+  let s := ds_sel d in
+  zlen (timestamps c s) = zlen (dumps s)
+  /\ forall i, 0 <= i < zlen (dumps s) ->
+       (nth (Z.to_nat i) (timestamps c s) 0
+        == TimeFreq.spec_timestamp (s_tm st) (o_a o + znth (dumps s) i))%Q.
+Proof. exact pre_timestamp_labels. Qed.
+Print Assumptions C01_preselect_timestamps.
+
+(* the stored coordinates named by a selection on the subset stay inside the preselected ranges (hence inside the
+   stored axes), one per dump / channel of the data set *)
+Theorem C01_preselect_coordinates : forall st pd pc o c h d, 0 <= s_T st -> 0 <= s_F st ->
+  open_pre st pd pc = Some o -> pre_ok st o c -> run c (start c) h = Some d ->
+  let s := ds_sel d in
+  Forall (fun p => o_a o <= p < o_b o) (stored_dumps o s) /\ Forall (fun p => o_c o <= p < o_d o) (stored_channels o s)
+  /\ 0 <= o_a o /\ o_b o <= s_T st /\ 0 <= o_c o /\ o_d o <= s_F st
+  /\ zlen (stored_dumps o s) = zlen (dumps s) /\ zlen (stored_channels o s) = zlen (channels s).
+Proof. exact pre_coordinates. Qed.
+Print Assumptions C01_preselect_coordinates.
+
+(* the configuration the wire function runs satisfies the hypotheses above by construction *)
+Theorem C01_preselect_wire_cfg : forall st o c0,
+  c_fmt (pre_cfg st o c0) = V4 /\ c_dup (pre_cfg st o c0) = false /\ c_ts (pre_cfg st o c0) = pre_ts st o
+  /\ c_obs (pre_cfg st o c0) = c_obs c0
+  /\ (pre_okb st o (pre_cfg st o c0) = true -> pre_ok st o (pre_cfg st o c0)).
+Proof. exact preselect_wire_cfg. Qed.
+Print Assumptions C01_preselect_wire_cfg.
+
+(* non-vacuity: 9 stored channels (ODD), preselect channels = slice(2, -3) = 2:6 (first + last EVEN), dumps = 3:7 of 8;
+   after select(channels=[1, 3], dumps=slice(1, 3)) the data set's channels [1, 3] are stored channels [3, 5] (one
+   below / one above the centre channel 9 // 2 = 4 at 1284: freqs 1283, 1285), its dumps [1, 2] stored dumps [4, 5]
+   (times t0 + 4 * 8, t0 + 5 * 8), and vis[0, :, 1] holds stored positions (4, 3, 1) and (4, 5, 1) *)
+Theorem C01_preselect_example :
+  exists o, open_pre ex_store ex_pd ex_pc = Some o
+    /\ (o_a o, o_b o, o_c o, o_d o) = (3, 7, 2, 6)
+    /\ pre_okb ex_store o (pre_cfg ex_store o ex_c0) = true
+    /\ option_map (fun d => (stored_dumps o (ds_sel d), stored_channels o (ds_sel d)))
+         (run (pre_cfg ex_store o ex_c0) (start (pre_cfg ex_store o ex_c0)) [OSelect kw_pre])
+       = Some ([4; 5], [3; 5])
+    /\ option_map (fun d => map Qred (pre_freqs o (ds_sel d)))
+         (run (pre_cfg ex_store o ex_c0) (start (pre_cfg ex_store o ex_c0)) [OSelect kw_pre])
+       = Some [1283; 1285]%Q
+    /\ option_map (fun d => map Qred (spec_pre_freqs ex_store o (ds_sel d)))
+         (run (pre_cfg ex_store o ex_c0) (start (pre_cfg ex_store o ex_c0)) [OSelect kw_pre])
+       = Some [1283; 1285]%Q
+    /\ option_map (fun d => map Qred (timestamps (pre_cfg ex_store o ex_c0) (ds_sel d)))
+         (run (pre_cfg ex_store o ex_c0) (start (pre_cfg ex_store o ex_c0)) [OSelect kw_pre])
+       = Some [1600000132; 1600000140]%Q
+    /\ (match run (pre_cfg ex_store o ex_c0) (start (pre_cfg ex_store o ex_c0))
+                [OSelect kw_pre; OAcquire KVis; OSelect []] with
+        | Some d => labels_of (index_op (served (stored_labels_of ex_store KVis) o) d 0 [AInt 0; full; AInt 1])
+        | None => None end)
+       = Some ([1; 2; 1], [pos3 9 4 4 3 1; pos3 9 4 4 5 1]).
+Proof. exact example_pre. Qed.
+Print Assumptions C01_preselect_example.
